@@ -8,6 +8,8 @@ for p in $(python3 -c "import json;print(' '.join(c['property_id'] for c in json
   echo "$out"
   case "$out" in *"exit 0") ;; *) fail=1;; esac
 done
+python3 -m harness.statustable > /dev/null
+python3 -m harness.seedtable > /dev/null
 python3-vt - <<'PY'
 import json, jsonschema, glob
 sch = json.load(open('/root/.vp/EVIDENCE.schema.json'))
